@@ -489,5 +489,38 @@ func TestVerifRelocStreams(t *testing.T) {
 		enc.Encode(ar.relocate("stream: "+desc+fmt.Sprintf("+tail%d", s.Tail), code, 400, false))
 		n++
 	}
+	// late clobber: a plain prologue, `pad` one-byte instructions, one LONG instruction (11 or 12 bytes), then a branch back
+	// to the second instruction (inside the bytes the entry jump overwrites), then a tail. goom's extent scan and its
+	// branch scan must see that branch wherever the long instruction happens to lie: every pad in a window (all
+	// alignments relative to any chunk / page size the scanners may use), so the relocation must be refused every time.
+	for _, long := range [][]byte{
+		{0xc7, 0x84, 0x24, 0x10, 0x01, 0x00, 0x00, 0x78, 0x56, 0x34, 0x12},       // movl $imm32, disp32(%rsp)   11 bytes
+		{0x48, 0xc7, 0x84, 0x24, 0x10, 0x01, 0x00, 0x00, 0x78, 0x56, 0x34, 0x12}, // movq $imm32, disp32(%rsp)   12 bytes
+	} {
+		for pad := 100; pad < 540; pad++ {
+			// every alignment around the 128 / 256 / 512 byte marks (chunk sizes a scanner may use), sparse elsewhere
+			pos := 15 + pad
+			near := false
+			for _, m := range []int{128, 256, 512} {
+				if pos >= m-16 && pos <= m+2 {
+					near = true
+				}
+			}
+			if !near && pad%37 != 0 {
+				continue
+			}
+			code := []byte{0xb8, 0x78, 0x56, 0x34, 0x12, 0xb9, 0x78, 0x56, 0x34, 0x12, 0xba, 0x78, 0x56, 0x34, 0x12} // 3 x mov $imm32,%e?x
+			for i := 0; i < pad; i++ {
+				code = append(code, 0x50+byte(i%3)) // push %rax / %rcx / %rdx
+			}
+			code = append(code, long...)
+			at := len(code)
+			rel := 5 - (at + 6) // jne rel32 -> offset 5 = the second instruction
+			code = append(code, 0x0f, 0x85, byte(rel), byte(rel>>8), byte(rel>>16), byte(rel>>24))
+			code = append(code, 0x31, 0xc0, 0x31, 0xc0, 0xc3)
+			enc.Encode(ar.relocate(fmt.Sprintf("late clobber: pad %d, long instruction of %d bytes at %d, branch back at %d", pad, len(long), at-len(long), at), code, len(code), false))
+			n++
+		}
+	}
 	t.Logf("records=%d", n)
 }
